@@ -286,7 +286,8 @@ def check(col, prog, tier, profile, fixture=None):
     gen = util.need_adt(crate, "LinearCongruentialGenerator64")
     plain = all(f["ty"] in ("u64", "u32", "u128", "usize") for f in util.fields_of(gen))
     der = {(i.get("trait") or "").split("::")[-1]: i.get("derived") for i in crate.impls if i.get("self_adt") == gen["key"]}
-    if plain and der.get("Clone") and der.get("Copy"):
+    clone_struct = util.structural_clone(crate, gen)[0]
+    if plain and clone_struct and "Copy" in der:
         col.ok("A1" + sfx, "%s:%d" % (gen["span"]["file"], gen["span"]["line"]), "generator|plain-copy-data", "state is plain integers with derived Copy/Clone: a copy continues the same stream")
     else:
         col.violation("A1" + sfx, "generator|plain-copy-data", "%s:%d" % (gen["span"]["file"], gen["span"]["line"]), "the generator must be plain integer state with derived Copy/Clone")
